@@ -34,7 +34,7 @@
       by `into_rv64_routine` back, up to the text of comments, without malformed hooks (a print → parse round
       trip for RV64 does not exist yet; Scc/X86/Loader*.lean is the model for it).
   * `C08_int_programs_statement`  `C08_int_programs` without its decidable side hypotheses (success of the
-      mock code generator, `CodeFits`, pairwise distinct labels of the routine, `fuel + 1 < 2^64`).
+      mock code generator, `CodeFits`, pairwise distinct labels of the routine, routine below 2^64, `fuel + 1 < 2^64`).
 -/
 import Scc.RV.RefRun
 import Scc.Props.C08RV
@@ -206,13 +206,13 @@ reproduced by the RV64 SPEC machine started at the first label: it reaches `clea
 the label `cleanup`) up to the text of comments and has no malformed hook comment.  Side hypotheses (all
 decidable on the program, the emitted code or the machine configuration): the mock code generator succeeds
 and its code fits the address space (`hcompM`, `hfit`: Theorem A), the labels of the routine are pairwise
-distinct (`hnd`), the heap monitor is off, the heap region lies below 2^63 and has 64·15 bytes per step. -/
+distinct (`hnd`), the routine ends below 2^64 (`hfitX`), the heap monitor is off, the heap region lies below 2^63 and has 64·15 bytes per step. -/
 theorem C08_int_programs (p : AxCut.Prog) (args : List Word) (hooks : Bool) (instrs hdr : List Code)
     (nargs cX : Nat) (d0 : Def) (ops : List MockOp) (c' : Nat)
     (hsafe : LabelSafe p = true) (htp : LinTypedProg p) (hip : IntProg p) (hpf : PrintFree p)
     (hcompM : (compile mockSym hooks p).run 0 = .ok ((ops, nargs), c')) (hfit : CodeFits ops)
     (hcompX : (compile rvBackend hooks p).run 0 = .ok ((instrs, nargs), cX))
-    (hnd : (labs (instrs ++ [Code.LAB "cleanup"])).Nodup)
+    (hnd : (labs (instrs ++ [Code.LAB "cleanup"])).Nodup) (hfitX : codeBase + 4 * instrs.length < 2 ^ 64)
     (hd : p.defs.head? = some d0) (hentry : ∀ b ∈ d0.ctx, b.chi = .ext ∧ b.ty = .i64)
     (hcap : ∀ st, Reachable p ⟨d0.ctx, args.map .int, d0.body⟩ st → st.ctx.length ≤ maxVariables)
     (fuel : Nat) (v : Word) (hfuel : fuel + 1 < 2 ^ 64)
@@ -224,7 +224,7 @@ theorem C08_int_programs (p : AxCut.Prog) (args : List Word) (hooks : Bool) (ins
     (hhook : ∀ x ∈ lines, ¬ badHook x.2) :
     ∃ fuel', (runLines lines args fuel' mc).res = .done v :=
   programs_lines p args hooks instrs hdr nargs cX d0 ops c' hsafe htp
-    (fun d hd' => stmtOK_of_int d.body (hip d hd').2 (hpf d hd')) hcompM hfit hcompX hnd hd hentry hcap fuel v
+    (fun d hd' => stmtOK_of_int d.body (hip d hd').2 (hpf d hd')) hcompM hfit hcompX hnd hfitX hd hentry hcap fuel v
     hfuel hrun mc hheap htop hbytes lines hhdr hlines hhook
 
 /-- the text of a routine LOADS: the machine's parser reads the printed routine back, up to the text of
@@ -240,7 +240,8 @@ theorem C08_int_programs_text (p : AxCut.Prog) (args : List Word) (hooks : Bool)
     (hsafe : LabelSafe p = true) (htp : LinTypedProg p) (hip : IntProg p) (hpf : PrintFree p)
     (hcompM : (compile mockSym hooks p).run 0 = .ok ((ops, nargs), c')) (hfit : CodeFits ops)
     (hcompX : compileRoutine p hooks 0 = .ok (nargs, text))
-    (hnd : ∀ instrs, intoRoutine instrs = text → (labs (instrs ++ [Code.LAB "cleanup"])).Nodup)
+    (hnd : ∀ instrs, intoRoutine instrs = text → (labs (instrs ++ [Code.LAB "cleanup"])).Nodup ∧
+      codeBase + 4 * instrs.length < 2 ^ 64)
     (hload : ∀ instrs, intoRoutine instrs = text → C08_TextLoads instrs)
     (hd : p.defs.head? = some d0) (hentry : ∀ b ∈ d0.ctx, b.chi = .ext ∧ b.ty = .i64)
     (hcap : ∀ st, Reachable p ⟨d0.ctx, args.map .int, d0.body⟩ st → st.ctx.length ≤ maxVariables)
@@ -259,7 +260,8 @@ theorem C08_int_programs_text (p : AxCut.Prog) (args : List Word) (hooks : Bool)
     obtain ⟨rfl, rfl⟩ := hcompX
     obtain ⟨lines, hparse, hlines, hhook⟩ := hload instrs rfl
     obtain ⟨fuel', hf⟩ := C08_int_programs p args hooks instrs [Code.COMMENT "actual code"] nargs' cX d0 ops c'
-      hsafe htp hip hpf hcompM hfit hx (hnd instrs rfl) hd hentry hcap fuel v hfuel hrun mc hheap htop hbytes
+      hsafe htp hip hpf hcompM hfit hx (hnd instrs rfl).1 (hnd instrs rfl).2 hd hentry hcap fuel v hfuel hrun mc hheap
+      htop hbytes
       lines (fun c hc => by simp at hc; subst hc; rfl) hlines hhook
     exact ⟨fuel', by rw [run_eq_runLines hparse args fuel' mc hwf]; exact hf⟩
 
@@ -391,7 +393,7 @@ example : ∃ fuel', (runLines (canonLines [Code.COMMENT "actual code"] C08_loop
   have hrun : (Pos.run C08_loopProg [3, 0] 40).res = .done 6 := by decide
   exact C08_int_programs C08_loopProg [3, 0] true C08_loopInstrs [Code.COMMENT "actual code"] 2 cX C08_loopDef
     C08_loopOps c' (by decide) (linTypedCheck_sound C08_loopProg rfl) C08_loopProg_int C08_loopProg_printFree
-    hcompM (by decide) hcompX (by decide) rfl (by decide)
+    hcompM (by decide) hcompX (by decide) (by decide) rfl (by decide)
     (C08_capacity_of_run C08_loopProg 40 _ (by decide) (by decide)) 40 6 (by decide) hrun {} rfl (by decide)
     (by decide) _ (fun c hc => by simp at hc; subst hc; rfl) (canonLines_codes _ _) (canonLines_hooks _ _)
 
